@@ -41,6 +41,8 @@ def gen_cases(tier, seed):
             c['stream_failures'] = k in (2, 5, 6)     # stream() over elements whose handler raises, return_exceptions=True
             if k == 3:
                 c['server_backlog'], c['client_backlog'] = 2, 3   # tiny per-connection / client queues
+    for i in range(2 if tier == 'quick' else 20):
+        cases.append({'kind': 'socket-stream-gaps', 'streams': 8, 'seed': rng.randrange(1 << 30)})
     # a request that cannot be transported, among ordinary ones
     for i, what in enumerate(['response', 'payload', 'deep-payload'] * (1 if tier == 'quick' else 6)):
         cases.append({'kind': 'socket-poison', 'what': what, 'connections': [1, 2, 3][(i // 3 + i) % 3], 'rounds': 2, 'seed': rng.randrange(1 << 30)})
@@ -425,9 +427,73 @@ def run_socket_poison(case):
             'sample': {'kind': 'socket-poison', 'what': case['what'], 'connections': case['connections'], 'poison_outcomes': box.get('poison_outcome'), 'requests': obs['requests']}}
 
 
+def run_socket_stream_gaps(case):
+    """stream() over an input iterator that pauses for about the stream's internal polling interval (0.1 s) before its last elements: the
+    consumer's wait times out, and the feeder delivers the tail and finishes right then.  Every element must still come out, in order."""
+    import mpservice.multiprocessing as mm
+    import mpservice.socket as MS
+
+    rng = random.Random(case['seed'])
+    viol = []
+    obs = {'socket_cases': 1, 'gap_streams': 0, 'requests': 0, 'stream_items': 0, 'bytes_sent': 0}
+    d = tempfile.mkdtemp(prefix='vf-c18-')
+    path = os.path.join(d, 'sock')
+    srv = mm.Process(target=targets.c18_server, args=(path,))
+    srv.start()
+    fz = schedfuzz.SchedFuzz(seed=case['seed'], p=0.0)
+    # the consumer is slow between noticing the empty queue and looking at the feeder's state
+    fz.add_site(MS.SocketClient.stream, 'if t.done():', prob=1.0, delay=0.03, where='before', name='stream-consumer-after-empty-poll')
+
+    def lifetime():
+        with MS.SocketClient(num_connections=1, connection_timeout=30, path=path) as client:
+            with fz:
+                for rd in range(case['streams']):
+                    gap = round(rng.uniform(0.104, 0.122), 4)
+                    head, tail = rng.choice([1, 3]), rng.choice([1, 2])
+
+                    def gen():
+                        for i in range(head):
+                            yield ((rd, i), 0, False, b'h')
+                        time.sleep(gap)
+                        for i in range(head, head + tail):
+                            yield ((rd, i), 0, False, b't')
+
+                    got = []
+                    try:
+                        for x, y in client.stream('/tagged', gen(), return_x=True):
+                            got.append(tuple(y[0]))
+                    except Exception as e:  # noqa: BLE001
+                        viol.append({'mech': 'socket/stream-ends-early-when-feeder-finishes-after-an-empty-poll', 'msg': f'stream over an input that pauses {gap}s before its last {tail} element(s): '
+                                     f'raised {e!r} after {len(got)} of {head + tail} outputs'[:400]})
+                        return
+                    obs['gap_streams'] += 1
+                    obs['stream_items'] += len(got)
+                    if got != [(rd, i) for i in range(head + tail)]:
+                        viol.append({'mech': 'socket/stream-count', 'msg': f'stream over an input that pauses {gap}s before its last {tail} element(s) yielded {got!r}'})
+                        return
+
+    try:
+        watch.run_bounded(lifetime, 100, 'socket client streams with gaps')
+    except watch.Hang as h:
+        viol.append({'mech': 'socket/hang', 'msg': h.what, 'stacks': h.stacks})
+    except watch.Inconclusive as e:
+        return {'violations': viol, 'obs': obs, 'inconclusive': str(e), 'exit_after': True}
+    finally:
+        try:
+            srv.kill()
+        except Exception:
+            pass
+        shutil.rmtree(d, ignore_errors=True)
+    st = fz.stats()
+    return {'violations': viol[:2], 'obs': obs, 'nontrivial': True, 'sig': repr(('gaps', case['seed'])), 'exit_after': True, 'fuzz': st,
+            'sample': {'kind': 'socket-stream-gaps', 'streams': obs['gap_streams'], 'site_hits': st.get('site_hits')}}
+
+
 def run_case(case):
     if case['kind'] == 'socket':
         return run_socket(case)
+    if case['kind'] == 'socket-stream-gaps':
+        return run_socket_stream_gaps(case)
     if case['kind'] == 'socket-poison':
         return run_socket_poison(case)
     return run_pipe(case)
@@ -439,4 +505,4 @@ def decide_inconclusive(obs, results, cases):
     return None
 
 
-RULE = RULE + '; handlers raise 12 exception classes; /echo requests incl. surrogate-escaped strings and str/bytes subclasses; TCP transport; failing stream elements; tiny backlogs; late-reader pipe cases (known finding); a request whose payload or response cannot be pickled among ordinary requests on the same connections'
+RULE = RULE + '; handlers raise 12 exception classes; /echo requests incl. surrogate-escaped strings and str/bytes subclasses; TCP transport; failing stream elements; tiny backlogs; late-reader pipe cases (known finding); a request whose payload or response cannot be pickled among ordinary requests on the same connections; streams whose input pauses for about the 0.1 s polling interval before its last elements, the consumer delayed after its empty poll'
